@@ -3,7 +3,7 @@ from . import result as R, kernels as K, C01
 
 PROPERTY = "C11"
 META = {
-    "bounds": "attribute level: one generic bin, M2>=0, n>=1 integer, S2,fs>0 symbolic (unbounded); kernel level (M2 is the population variance of the per-segment cross products; 0 for K=1; >=0): all 18 backend functions at L<=3, K<=2 with symbolic data/window/omega (C01 covers the larger shapes)",
+    "bounds": "attribute level: one generic bin, M2>=0, n>=1 integer, S2,fs>0 symbolic (unbounded); kernel level (M2 is the population variance of the per-segment cross products; 0 for K=1; >=0): all 18 backend functions at L<=3, K<=2 with symbolic data/window/omega; the NumPy fallbacks additionally across their chunk boundaries (K=3 split 2+1, K=4 split 2+2 via _chunk=2) (C01 covers the larger shapes)",
     "outside": ["agreement with the analytic deviations for Gaussian noise (statistical clause)", "IEEE rounding"],
     "stubs": C01.META["stubs"],
     "assumptions": ["navg equals the number of segments of the bin (wiring decided in C05)"],
@@ -50,12 +50,12 @@ def ob_single_segment(W, cross):
     W.goal("K=1/G_emp_dev=0", W.eq(R.el(r.Gxy_emp_dev if cross else r.Gxx_emp_dev), 0))
 
 
-def ob_m2(W, backend, fam, mode, L, starts, order, N):
+def ob_m2(W, backend, fam, mode, L, starts, order, N, chunk=None):
     x = W.reals("x", N)
     y = W.reals("y", N) if mode == "csd" else x
     w = W.reals("w", L)
     omega = W.omega("w")
-    got = K.run(W, backend, fam, mode, x, y, starts, L, w, omega, order)
+    got = K.run(W, backend, fam, mode, x, y, starts, L, w, omega, order, chunk=chunk)
     ref = K.reference(W, x, y, starts, L, w, omega, order, mode)
     W.goal("M2=population variance", W.eq(got[4], ref[4]))
     # never negative: the reference is a mean of squares sum(dr_k^2+di_k^2)/K -- decided for arbitrary reals dr_k, di_k
@@ -81,4 +81,9 @@ def obligations(tier):
                         continue
                     obs.append({"name": "m2/%s/%s_%s/o%d/L%d/s%s" % (backend, fam, mode, order, L, "-".join(map(str, st))), "fn": "ob_m2",
                                 "params": dict(backend=backend, fam=fam, mode=mode, L=L, starts=st, order=order, N=L + 2), "weight": L * len(st)})
+                if backend == "numpy":
+                    # the NumPy fallbacks process segments in chunks: scatter across chunk boundaries (K=3 split 2+1, K=4 split 2+2)
+                    for L, st, ch in [(2, [0, 2, 1], 2), (1, [0, 3, 1, 2], 2)] + ([(2, [0, 1, 2, 3], 2), (2, [0, 1, 2, 3], 3)] if tier == "thorough" else []):
+                        obs.append({"name": "m2/%s/%s_%s/o%d/L%d/s%s/chunk%d" % (backend, fam, mode, order, L, "-".join(map(str, st)), ch), "fn": "ob_m2",
+                                    "params": dict(backend=backend, fam=fam, mode=mode, L=L, starts=st, order=order, N=max(st) + L, chunk=ch), "weight": 3 * L * len(st)})
     return obs
